@@ -309,6 +309,44 @@ func c10(c *Ctx) {
 		}
 	}
 
+	c.R.Rule("R10.8", "numeric ⇄ string conversions use the full width and base 10", 5,
+		"a float64 formatted or parsed with bitSize 32 (or an int64 with another width or base) is silently rounded: convert round-trips no longer preserve the value")
+	{
+		n := 0
+		for _, f := range c.P.PkgFunctions(pkgComposite) {
+			if !strings.HasSuffix(c.P.Fset.Position(f.Pos()).Filename, "composition_transforms.go") {
+				continue
+			}
+			for _, g := range closures(f) {
+				for _, x := range cfgx.Calls(g, nil) {
+					a := x.Common().Args
+					argIs := func(i int, want int64) bool {
+						k, ok := cfgx.ConstInt(a[i])
+						return ok && k == want
+					}
+					good, what := true, ""
+					switch cfgx.CalleeName(x) {
+					case "strconv.FormatFloat":
+						good, what = len(a) == 4 && argIs(3, 64) && argIs(2, -1), "FormatFloat(f64, fmt, -1, 64)"
+					case "strconv.ParseFloat":
+						good, what = len(a) == 2 && argIs(1, 64), "ParseFloat(s, 64)"
+					case "strconv.ParseInt":
+						good, what = len(a) == 3 && argIs(1, 10) && argIs(2, 64), "ParseInt(s, 10, 64)"
+					case "strconv.FormatInt", "strconv.FormatUint":
+						good, what = len(a) == 2 && argIs(1, 10), "Format(U)Int(i, 10)"
+					default:
+						continue
+					}
+					n++
+					c.R.Check(good, load.FuncName(g)+": "+site(x)+" width", c.pos(x.Pos()), what, "the conversion is not "+what+": values are rounded to a narrower type or rendered in another base")
+				}
+			}
+		}
+		if n == 0 {
+			c.R.Unknown("composition_transforms.go: strconv", "", "no numeric strconv call found")
+		}
+	}
+
 	c.R.Rule("R10.7", "named operations: the arm of each string conversion / trim constant reaches the standard-library operation its name documents", 10,
 		"a transform silently computes something else than its documented meaning (e.g. TrimLeft's character-set semantics instead of TrimPrefix)")
 	for _, it := range []struct {
